@@ -1559,7 +1559,7 @@ typename var_opt_sketch<T, A>::const_iterator& var_opt_sketch<T, A>::const_itera
 }
 
 template<typename T, typename A>
-typename var_opt_sketch<T, A>::const_iterator& var_opt_sketch<T, A>::const_iterator::operator++(int) {
+typename var_opt_sketch<T, A>::const_iterator var_opt_sketch<T, A>::const_iterator::operator++(int) {
   const_iterator tmp(*this);
   operator++();
   return tmp;
@@ -1646,8 +1646,8 @@ typename var_opt_sketch<T, A>::iterator& var_opt_sketch<T, A>::iterator::operato
 }
 
 template<typename T, typename A>
-typename var_opt_sketch<T, A>::iterator& var_opt_sketch<T, A>::iterator::operator++(int) {
-  const_iterator tmp(*this);
+typename var_opt_sketch<T, A>::iterator var_opt_sketch<T, A>::iterator::operator++(int) {
+  iterator tmp(*this);
   operator++();
   return tmp;
 }
